@@ -240,8 +240,8 @@ int main(int argc, char** argv) {
    if (vf::replaying()) { char k; if (sscanf(vf::replay_case().c_str(), "%c %zu", &k, &rn) == 2) kind = std::string(1, k); printf("replay: re-running the complete search for %sBuffer<%zu> (small), verbose\n", k == 'R' ? "Read" : "Write", rn); }
    bool v = vf::verbose() && vf::replaying();
 #define CAP(n) if (!vf::replaying() || rn == n) both<n>(v, kind);
-   CAP(1) CAP(2) CAP(3) CAP(4)
-   if (vf::thorough()) { CAP(5) CAP(6) CAP(7) CAP(8) }
+   CAP(1) CAP(2) CAP(3) CAP(4) CAP(5) CAP(6)
+   if (vf::thorough()) { CAP(7) CAP(8) CAP(9) CAP(10) }
    vf::count("transitions", g_trans); vf::count("evaluations", g_execs); vf::count("traces", g_execs);
    vf::count("chunkings", g_chunkings); vf::count("refills", g_refills); vf::count("compactions", g_compactions);
    vf::finish();
